@@ -291,13 +291,16 @@ pub fn widewindow(ctx: &Ctx) -> Stats {
     let mut st = Stats::new();
     let mut rng = Rng::keyed(ctx.seed, "c09.widewindow", 0);
     // (a)
-    let reps = ctx.pick(6usize, 40usize);
+    let reps = ctx.pick(8usize, 48usize);
     for rep in 0..reps {
         if ctx.expired() {
             st.truncated = true;
             return st;
         }
-        let m = *rng.pick(&[1usize, 4, 7, 10, 15, 28]);
+        // m large enough that the minimum over tens of thousands of m-mers is not always the all-A word: with 4^m far
+        // above the number of m-mers per window the minimiser changes as the window slides, so a window that is one
+        // m-mer too short or too long yields different runs (small m only in the narrow cases)
+        let m = if rep % 6 == 4 { *rng.pick(&[1usize, 4, 7]) } else { *rng.pick(&[12usize, 15, 20, 28]) };
         let span = match rep % 6 {
             0 => 65_535usize,
             1 => 65_536,
@@ -307,13 +310,15 @@ pub fn widewindow(ctx: &Ctx) -> Stats {
             _ => rng.usize(1000, 90_000),
         };
         let w = span + m - 1;
+        // the window slides over at least half a window length in half of the cases: the minimiser of a uniform
+        // random text changes about twice per window length
         let len = w + match rep % 4 {
             0 => 0,
             1 => 1,
-            2 => rng.usize(2, 2000),
-            _ => rng.usize(2000, 70_000),
+            2 => rng.usize(span / 2, span),
+            _ => rng.usize(span, span * 3 / 2),
         };
-        let class = *rng.pick(&[SeqClass::Uniform, SeqClass::Uniform, SeqClass::TwoLetter, SeqClass::Period3, SeqClass::IsolatedN]);
+        let class = if rep % 6 == 4 { *rng.pick(&[SeqClass::Uniform, SeqClass::TwoLetter, SeqClass::Period3, SeqClass::IsolatedN]) } else if rep % 4 >= 2 { SeqClass::Uniform } else { *rng.pick(&[SeqClass::Uniform, SeqClass::Uniform, SeqClass::IsolatedN]) };
         let mut seq = gen_seq(&mut rng, class, len, false);
         if class == SeqClass::IsolatedN {
             // keep at least one clean window
@@ -321,6 +326,14 @@ pub fn widewindow(ctx: &Ctx) -> Stats {
                 if !matches!(*b, b'A' | b'C' | b'G' | b'T' | b'a' | b'c' | b'g' | b't' | b'U' | b'u') {
                     *b = b'C';
                 }
+            }
+        }
+        if len > w + 10 && rep % 6 != 4 {
+            // a unique smallest m-mer (all A) somewhere in the middle: every window that contains it has minimiser 0, so the
+            // runs around it begin and end exactly one window length away
+            let p = rng.usize(len / 3, 2 * len / 3);
+            for b in seq.iter_mut().skip(p).take(m) {
+                *b = b'A';
             }
         }
         let case = Json::obj().set("w", Json::u(w)).set("m", Json::u(m)).set("len", Json::u(len)).set("class", Json::s(class.name())).set("seq_hash", Json::Int(hash_bytes(&seq) as i128));
@@ -340,8 +353,13 @@ pub fn widewindow(ctx: &Ctx) -> Stats {
                         format!("w={} m={} len={}: iterator yields {} runs, reference {}; first difference at run {} ({:?} vs {:?})", w, m, len, a.len(), exp.len(), first, a.get(first), exp.get(first)),
                         case,
                     );
-                } else if rep % 5 == 0 {
-                    st.sample(case.set("runs", Json::u(exp.len())));
+                } else {
+                    if exp.len() >= 2 {
+                        st.class("minimiser changes while the wide window slides");
+                    }
+                    if rep % 5 == 0 {
+                        st.sample(case.set("runs", Json::u(exp.len())));
+                    }
                 }
             }
         }
